@@ -16,6 +16,12 @@
 #include <string.h>
 #include <string>
 #include <vector>
+// VERIF_UL: the type of millis(). The 32-bit variant of this driver is compiled against copies of the clock headers
+// in which `unsigned long` is replaced by uint32_t (generated from the working tree at build time, vf/clocks.py),
+// so that the wrap of millis() at 2^32 -- which a 64-bit host never reaches -- is exercised.
+#ifndef VERIF_UL
+#define VERIF_UL unsigned long
+#endif
 #define private public
 #define protected public
 #include "drv_common.h"
@@ -28,7 +34,7 @@ using namespace ace_time;
 using namespace ace_time::clock;
 
 Print VerifSerial;
-extern "C" unsigned long millis() { return 0; }
+extern "C" VERIF_UL millis() { return 0; }
 
 static const long INV = (long) INT32_MIN;
 
@@ -46,18 +52,18 @@ struct RecClock : public Clock {
 };
 
 struct SC : public SystemClock {
-  unsigned long fake = 0;
+  VERIF_UL fake = 0;
   SC(Clock* r, Clock* b) : SystemClock(r, b) {}
-  unsigned long clockMillis() const override { return fake; }
+  VERIF_UL clockMillis() const override { return fake; }
   long epoch() const { return mEpochSeconds; }
   long prev() const { return mPrevMillis; }
   long last() const { return mLastSyncTime; }
 };
 
 struct SCL : public SystemClockLoop {
-  unsigned long fake = 0;
+  VERIF_UL fake = 0;
   SCL(Clock* r, Clock* b, uint16_t sync, uint16_t initial, uint16_t timeout) : SystemClockLoop(r, b, sync, initial, timeout) {}
-  unsigned long clockMillis() const override { return fake; }
+  VERIF_UL clockMillis() const override { return fake; }
   long epoch() const { return mEpochSeconds; }
   long prev() const { return mPrevMillis; }
   long last() const { return mLastSyncTime; }
@@ -141,7 +147,7 @@ static int run_scl() {
       // [status, cur, reqStart, lastSyncMs, epoch, prev, init, lastSyncTime, backupVal, backupWrites, requests, reading]
       char buf[64];
       out += std::string("[\"") + status_name(c->mRequestStatus) + "\",";
-      snprintf(buf, sizeof buf, "%u,%lu,%lu,", (unsigned) c->mCurrentSyncPeriodSeconds, c->mRequestStartMillis, c->mLastSyncMillis); out += buf;
+      snprintf(buf, sizeof buf, "%u,%lu,%lu,", (unsigned) c->mCurrentSyncPeriodSeconds, (unsigned long) c->mRequestStartMillis, (unsigned long) c->mLastSyncMillis); out += buf;
       // the object's state is read before getNow(), which folds elapsed time into it
       long e0 = c->epoch(), p0 = c->prev(), l0 = c->last();
       bool i0 = c->isInit();
